@@ -589,6 +589,14 @@ class Report(object):
         return 0
 
 
+class StructuralViolation(AnalysisError):
+    """raised by a front end when the construct it looks for is missing in a way that is itself a violation"""
+
+    def __init__(self, rule, where, key, message):
+        AnalysisError.__init__(self, message)
+        self.rule, self.where, self.key, self.message = rule, where, key, message
+
+
 def run_check(prop, tier, fn, explanation, trusted=None):
     """Run `fn(repo, report)`; map outcomes to the exit-code contract."""
     rep = Report(prop, tier, explanation, trusted)
@@ -598,6 +606,12 @@ def run_check(prop, tier, fn, explanation, trusted=None):
         rep.note('files', sorted(repo.files_read))
         return rep.finish()
     except AnalysisError as e:
+        if isinstance(e, StructuralViolation):
+            # the front end could not build its model *because* the code has a shape that breaks the property
+            rep.rule(e.rule, 'shape of the code the model of this check is built from')
+            rep.violation(e.rule, e.where, e.key, e.message)
+            rep.floor_failures = []
+            return rep.finish()
         if rep.violations:
             # a violation established before the analysis got stuck stands on its own
             print('NOTE property=%s: analysis incomplete (%s); reporting the violations found before that' % (prop, e))
